@@ -168,6 +168,13 @@ theorem unop_law {β : Type} (op : Arg → β) (f : List Arg → β) (hf : ∀ x
     (listUnop op t a).toRes = multiNew f [a] :=
   unop_eq_multiNew op f hf t a hta hna
 
+/-- n-ary operators (`list_narop`) expand over the receiver only; the extra arguments reach every
+    application unchanged -/
+theorem narop_law {β : Type} (op : Arg → List Arg → β) (args : List Arg) (f : List Arg → β)
+    (hf : ∀ x, f [x] = op x args) (t : Kind) (a : Arg) (hta : TupleFree a) (hna : DeepNonEmpty a) :
+    (listNarop op t a args).toRes = multiNew f [a] :=
+  narop_eq_multiNew op args f hf t a hta hna
+
 /-- the outermost container of an operator result is the one asked for (`ChannelList`) -/
 theorem binop_container {β : Type} (op : Arg → Arg → β) (t : Kind) (a b : Arg)
     (h : a.isSeq = true ∨ b.isSeq = true) :
